@@ -241,6 +241,31 @@ def native_schedulers_and_frame(ck):
 
     fails = list(C10.processes_design(ck))
     n = 9
+    # the cloud model objects of every configurable kind travel to the worker processes with the kernel: same cloud tops, same results
+    from nuspacesim.config import Simulation
+    from nuspacesim.simulation.atmosphere.clouds import CloudTopHeight
+    from nuspacesim.simulation.eas_optical.cphotang import CphotAng
+
+    rng = np.random.default_rng(ck.seed + 14)
+    m_ = 5
+    bb, aa, ee = np.radians(rng.uniform(3.0, 30.0, m_)), rng.uniform(0.5, 6.0, m_), 10 ** rng.uniform(-1, 1, m_)
+    la, lo = np.radians(rng.uniform(-60, 60, m_)), np.radians(rng.uniform(-170, 170, m_))
+    for cname, cm in (("pressure map (month 7)", Simulation.PressureMapCloud(month=7)), ("uniform cloud at 3.5 km", Simulation.MonoCloud(altitude=3.5))):
+        n += m_
+        try:
+            ccfg = NssConfig()
+            ccfg.simulation.cloud_model = cm
+            cloud = CloudTopHeight(ccfg)
+            with np.errstate(all="ignore"), contextlib.redirect_stdout(io.StringIO()), contextlib.redirect_stderr(io.StringIO()):
+                want = [CphotAng(33.0).run(bb[j], aa[j], ee[j], la[j], lo[j], cloud) for j in range(m_)]
+                with dask.config.set(scheduler="processes", num_workers=2):
+                    d, a = CphotAng(33.0)(bb.copy(), aa.copy(), ee.copy(), la.copy(), lo.copy(), cloud)
+            wd, wa = np.asarray([r[0] for r in want], float), np.asarray([r[1] for r in want], float)
+            if not (np.array_equal(np.asarray(d, float), wd, equal_nan=True) and np.array_equal(np.asarray(a, float), wa, equal_nan=True)):
+                fails.append({"obligation": "bounded.schedulers", "clause": "with a cloud model, the batch under the multi-process scheduler == the events one at a time",
+                              "input": {"scheduler": "processes", "num_workers": 2, "cloud model": cname, "events": m_, "seed": ck.seed + 14}, "observed": {"batch": np.asarray(d, float)[:3].tolist(), "one-at-a-time": wd[:3].tolist()}})
+        except Exception as ex:
+            fails.append({"obligation": "bounded.schedulers", "clause": "with a cloud model, the batch evaluates under the multi-process scheduler", "input": {"scheduler": "processes", "cloud model": cname, "events": m_}, "observed": "raised %r" % (ex,)})
     C = importlib.import_module("nuspacesim.compute")
     for alt in (33.0, 525.0):
         cfg = NssConfig()
@@ -257,6 +282,37 @@ def native_schedulers_and_frame(ck):
             sub = {k: [kk for kk in before[k] if isinstance(before[k], dict) and before[k].get(kk) != after[k].get(kk)] for k in diff if isinstance(before[k], dict)}
             fails.append({"obligation": "bounded.config_untouched", "clause": "compute() does not modify the configuration object it is given (a later run with the same object runs that configuration)",
                           "input": {"detector_altitude": alt, "thrown_events": 120}, "observed": {"sections that changed": sub or diff}})
+    return {"evaluations": n, "failures": fails}
+
+
+def store_decorator_design(ck):
+    """the real column-storing decorator on every result shape a stage can produce: one array or a tuple of k arrays, of 0, 1, 2, 3, 5 rows
+    (one surviving trajectory included): store(names, columns) is called once, with exactly the returned arrays, one per name"""
+    from nuspacesim.utils.decorators import nss_result_store
+
+    fails, n = [], 0
+    for rows in (0, 1, 2, 3, 5):
+        for k in (1, 2, 3, 4):
+            for as_tuple in ((False, True) if k == 1 else (True,)):
+                names = tuple("c%d" % i for i in range(k))
+                vals = tuple(np.arange(rows, dtype=float) + 10 * i for i in range(k))
+                ret = vals if as_tuple else vals[0]
+                calls = []
+
+                @nss_result_store(*names)
+                def stage(ret=ret):
+                    return ret
+
+                n += 1
+                try:
+                    out = stage(store=lambda nm, cols, *a, **kw: calls.append((tuple(nm), list(cols))))
+                    ok = out is ret and len(calls) == 1 and calls[0][0] == names and len(calls[0][1]) == k and all(c is v for c, v in zip(calls[0][1], vals))
+                    obs = {"store calls": len(calls), "columns passed": [("array of shape %s" % (np.shape(c),)) for c in calls[0][1]] if calls else None}
+                except Exception as ex:
+                    ok, obs = False, "raised %r" % ex
+                if not ok:
+                    fails.append({"obligation": "bounded.store_decorator", "clause": "a stage's result columns are stored as returned: one column per name, each the returned array with one row per surviving trajectory",
+                                  "input": {"surviving trajectories": rows, "names": list(names), "stage returns": "a tuple of %d arrays" % k if as_tuple else "one array"}, "observed": obs})
     return {"evaluations": n, "failures": fails}
 
 
@@ -329,5 +385,9 @@ def run(ck):
     C03.target_checks(ck, [("Optical", True, False)], quick=True, lemmas_for=())
     ck.bounded_run("kernel under the multi-process scheduler at 33 km; configuration object untouched by compute()", lambda: native_schedulers_and_frame(ck),
                    design="9 events, scheduler=processes (2 workers), detector at 33 km vs one-at-a-time; compute() with 120 thrown events at 33 km and 525 km: model_dump() of the given configuration before == after")
+    ck.bounded_run("column-storing decorator on every result shape", lambda: store_decorator_design(ck),
+                   design="nss_result_store with 1-4 names x {one array, tuple} x 0/1/2/3/5 rows and a recording store: one call, the returned arrays themselves, one per name")
+    ck.bounded_run("channel isolation on the shared geometry object", lambda: C03.channel_history(ck),
+                   design="RegionGeom.mcintegral with optical-like and radio-like arguments in either order on one object vs each alone on a freshly thrown object (3 altitudes x 4000 thrown events)")
     if ck.tier == "thorough":
         ck.bounded_run("seeded end-to-end runs", lambda: bounded_seeded(ck), design="{Diffuse, Target(33 km)} x {mono, power-law} x {both, optical only, radio only}; synchronous vs threaded scheduler; bit-for-bit")
